@@ -92,6 +92,15 @@ func Deflate(b []byte) []byte {
 	return buf.Bytes()
 }
 
+// DeflateNoFinal raw-deflates b but only flushes the stream: all data is there, the final block is not.
+func DeflateNoFinal(b []byte) []byte {
+	var buf bytes.Buffer
+	w, _ := flate.NewWriter(&buf, flate.BestCompression)
+	_, _ = w.Write(b)
+	_ = w.Flush()
+	return buf.Bytes()
+}
+
 // SSORequestGET builds the redirect-binding request for a raw AuthnRequest document.
 func SSORequestGET(sso string, requestXML []byte, relayState string) *http.Request {
 	q := url.Values{"SAMLRequest": {B64(Deflate(requestXML))}}
